@@ -46,13 +46,15 @@ inline void err(const std::string &e)
     if (st().error.empty()) { st().error = e; }
 }
 
+inline unsigned char canary_byte(int i) { return (unsigned char)(0xFD ^ (i * 37 + (i >> 3))); }
 inline void *raw_new(size_t size)
 {
     unsigned char *raw = (unsigned char *)malloc(size + 2 * RZ);
     if (!raw) { abort(); }
-    memset(raw, 0xFD, RZ);
+    // the red zones carry a position-dependent pattern: a block move that runs off the end copies red-zone bytes onto red-zone bytes,
+    // which a uniform fill would not notice
+    for (int i = 0; i < RZ; ++i) { raw[i] = canary_byte(i); raw[RZ + size + (size_t)i] = canary_byte(RZ + i); }
     memset(raw + RZ, 0xA5, size); // fresh memory is poison-patterned: read-before-write is visible in the contents
-    memset(raw + RZ + size, 0xFD, RZ);
     void *p = raw + RZ;
     st().ledger[p] = Block{size, true, raw};
     ++st().live_blocks;
@@ -62,7 +64,7 @@ inline bool canaries_ok(const Block &b)
 {
     for (int i = 0; i < RZ; ++i)
     {
-        if (b.raw[i] != 0xFD || b.raw[RZ + b.size + i] != 0xFD) { return false; }
+        if (b.raw[i] != canary_byte(i) || b.raw[RZ + b.size + (size_t)i] != canary_byte(RZ + i)) { return false; }
     }
     return true;
 }
